@@ -1538,6 +1538,22 @@ Proof.
   - destruct (wf_state s); try discriminate Hw; exact HD.
 Qed.
 
+(* a start request delivered to any state of the invariant (also a repeated one) *)
+Lemma start_task_D s tid f r x : D sp pz s [] -> dflag f r x = true -> D sp pz (fst (do_start_task sp s tid f r x)) [].
+Proof.
+  intros D0 Hit. unfold do_start_task.
+  destruct (Nat.leb (length (tasks s)) tid) eqn:El; [exact D0|]. apply Nat.leb_gt in El.
+  destruct (nth_error (tasks s) tid) as [r0|] eqn:En; [|apply nth_error_None in En; lia].
+  unfold get_task. rewrite (nth_error_nth' _ _ dummy_trow _ En).
+  assert (Hidle_eq : is_idle (t_state r0) = true -> t_state r0 = IDLE)
+    by (destruct (t_state r0); intros E; try discriminate E; reflexivity).
+  destruct f, r, x; try discriminate Hit; cbn [negb andb].
+  - destruct (is_idle (t_state r0)) eqn:Ei; cbn [fst]; [apply (start_new_D _ tid r0 D0 En (Hidle_eq eq_refl))|].
+    rewrite nojoin_check_affected by (apply simple_nojoin; exact Hs). exact D0.
+  - destruct (is_idle (t_state r0)) eqn:Ei; cbn [negb fst]; [apply (start_new_D _ tid r0 D0 En (Hidle_eq eq_refl))|].
+    change (D sp pz (commit (s, [OCheck])) []). apply commit_D, D_add_check, D0.
+Qed.
+
 Definition plain4 (e : ev) : bool := match e with EStart | EFire _ | EFirePtq _ | EEvict => true | _ => false end.
 
 Theorem DInv_step s e : plain4 e = true -> DInv sp pz s -> DInv sp pz (fst (step sp s e)).
@@ -1593,6 +1609,30 @@ Proof.
     destruct Hinv as [[Hc H]|HD]; [unfold step; rewrite Hc; left; split; [exact Hc|exact H]|].
     right. apply resume_D. exact HD.
 Qed.
+
+(* a delivery repeated by the transport: a start request (at any time, in any state), or a result for an
+   action execution that has already accepted one (or that does not exist) *)
+Definition dup_ok (s : st) (e : ev) : bool :=
+  match e with
+  | EDup (IStartTask _ f r x) => dflag f r x
+  | EDup (IResult aid _) => Nat.leb (length (acts s)) aid || is_completed (a_state (get_act s aid))
+  | _ => false
+  end.
+Definition ev7 (s : st) (e : ev) : bool := plain6 e || dup_ok s e.
+
+Theorem DInv_step7 s e : pz = true -> ev7 s e = true -> DInv sp pz s -> DInv sp pz (fst (step sp s e)).
+Proof.
+  intros Hz He Hinv. unfold ev7 in He. apply orb_true_iff in He. destruct He as [He|He]; [apply DInv_step6; assumption|].
+  destruct e as [| | | | | | | |i|]; try discriminate He. destruct i as [tid f r x|aid|aid res|ops|tid]; try discriminate He.
+  - (* a repeated start request *)
+    cbn [dup_ok] in He. cbn [step].
+    destruct Hinv as [[Hc [Hp [Ht Hr]]]|HD].
+    + left. unfold do_start_task. rewrite Ht. cbn [length Nat.leb fst]. exact (conj Hc (conj Hp (conj Ht Hr))).
+    + right. apply start_task_D; assumption.
+  - (* a repeated result *)
+    cbn [dup_ok] in He. cbn [step]. unfold do_result.
+    destruct (Nat.leb (length (acts s)) aid) eqn:El; [exact Hinv|]. cbn [orb] in He. rewrite He. exact Hinv.
+Qed.
 End Events.
 
 (* ================================================================= the theorem *)
@@ -1634,6 +1674,36 @@ Proof.
   destruct (D_wf _ _ _ _ HD) as [E|[[E _]|E]]; [rewrite E; discriminate|discriminate E|intros E'; rewrite E' in E; discriminate].
 Qed.
 
+(* event lists whose repeated deliveries are repetitions (checked against the state they arrive in) *)
+Fixpoint run7 (s : st) (evs : list ev) : bool :=
+  match evs with
+  | [] => true
+  | e :: rest => ev7 s e && run7 (fst (step sp s e)) rest
+  end.
+
+Lemma DInv_steps7 evs : forall s, run7 s evs = true -> DInv sp true s -> DInv sp true (steps sp s evs).
+Proof.
+  induction evs as [|e evs IH]; intros s He Hi; [exact Hi|].
+  cbn [run7] in He. apply andb_true_iff in He. destruct He as [He1 He2].
+  unfold steps. simpl. apply IH; [exact He2|apply DInv_step7; [exact Hs|reflexivity|exact He1|exact Hi]].
+Qed.
+
+Lemma run7_live evs : forall s, run7 s evs = true -> forallb live_ev evs = true.
+Proof.
+  induction evs as [|e evs IH]; intros s H; [reflexivity|]. cbn [run7] in H. apply andb_true_iff in H. destruct H as [H1 H2].
+  cbn [forallb]. rewrite (IH _ H2), andb_true_r. unfold ev7 in H1. apply orb_true_iff in H1. destruct H1 as [H1|H1].
+  - destruct e; try discriminate H1; reflexivity.
+  - destruct e as [| | | | | | | |i|]; try discriminate H1. destruct i as [tid f r x|aid|aid res|ops|tid]; try discriminate H1.
+    + cbn [dup_ok] in H1. cbn [live_ev plain_item]. unfold sflag. unfold dflag in H1. destruct f, r, x; try discriminate H1; reflexivity.
+    + reflexivity.
+Qed.
+
+Lemma plain6_run7 evs : forall s, forallb plain6 evs = true -> run7 s evs = true.
+Proof.
+  induction evs as [|e evs IH]; intros s H; [reflexivity|]. cbn [forallb] in H. apply andb_true_iff in H. destruct H as [H1 H2].
+  cbn [run7]. unfold ev7. rewrite H1. cbn [orb andb]. apply IH. exact H2.
+Qed.
+
 (* final states of the task executions of task p *)
 Definition states_named (s : st) (p : nat) : list state :=
   map t_state (filter (fun r => Nat.eqb (t_name r) p) (tasks s)).
@@ -1669,19 +1739,14 @@ Proof.
   intros H. unfold contrib. apply sumf_ext. intros p Hp. apply in_seq in Hp. rewrite (H p ltac:(lia)). reflexivity.
 Qed.
 
-Theorem den_correct6 u evs :
-  forallb plain6 evs = true ->
-  let s := run sp u evs in
-  wf_created s = true -> pend s = [] -> wf_state s <> PAUSED ->
+Lemma den_core s :
+  D sp true s [] -> (forall tid r, nth_error (tasks s) tid = Some r -> is_completed (t_state r) = true) ->
+  pend s = [] -> wf_state s <> PAUSED ->
   forall n, n < length sp ->
     rows_named s n = nth n (den sp) 0 /\
     Permutation (states_named s n) (prescribed_states sp n (nth n (den sp) 0)).
 Proof.
-  intros He s Hc Hp Hnpz.
-  assert (HI : DInv sp true s).
-  { unfold s. rewrite run_steps. apply DInv_steps6; [exact He|]. left. repeat split; reflexivity. }
-  destruct HI as [[Hc' _]|HD]; [congruence|].
-  destruct (no_stuck_joinfree sp (simple_nojoin sp Hs) u evs (plain6_live evs He) Hc Hp) as [Hdone _]. fold s in Hdone.
+  intros HD Hdone Hp Hnpz.
   (* every row completed: final_states = states_named *)
   assert (Hfin : forall p, final_states s p = states_named s p).
   { intros p. unfold final_states, states_named.
@@ -1736,6 +1801,31 @@ Proof.
   split; [reflexivity|apply Hout].
 Qed.
 
+Theorem den_correct7 u evs :
+  run7 (init_with u) evs = true ->
+  let s := run sp u evs in
+  wf_created s = true -> pend s = [] -> wf_state s <> PAUSED ->
+  forall n, n < length sp ->
+    rows_named s n = nth n (den sp) 0 /\
+    Permutation (states_named s n) (prescribed_states sp n (nth n (den sp) 0)).
+Proof.
+  intros He s Hc Hp Hnpz.
+  assert (HI : DInv sp true s).
+  { unfold s. rewrite run_steps. apply DInv_steps7; [exact He|]. left. repeat split; reflexivity. }
+  destruct HI as [[Hc' _]|HD]; [congruence|].
+  destruct (no_stuck_joinfree sp (simple_nojoin sp Hs) u evs (run7_live evs _ He) Hc Hp) as [Hdone _]. fold s in Hdone.
+  apply den_core; assumption.
+Qed.
+
+Theorem den_correct6 u evs :
+  forallb plain6 evs = true ->
+  let s := run sp u evs in
+  wf_created s = true -> pend s = [] -> wf_state s <> PAUSED ->
+  forall n, n < length sp ->
+    rows_named s n = nth n (den sp) 0 /\
+    Permutation (states_named s n) (prescribed_states sp n (nth n (den sp) 0)).
+Proof. intros He. apply den_correct7. apply plain6_run7. exact He. Qed.
+
 Theorem den_correct u evs :
   forallb plain4 evs = true ->
   let s := run sp u evs in
@@ -1766,23 +1856,23 @@ Proof.
     exists r. split; assumption.
 Qed.
 
-Theorem den_final_state6 u evs :
-  forallb plain6 evs = true ->
+Theorem den_final_state7 u evs :
+  run7 (init_with u) evs = true ->
   let s := run sp u evs in
   wf_created s = true -> pend s = [] -> wf_state s <> PAUSED -> wf_state s = den_verdict.
 Proof.
   intros He s Hc Hp Hnpz.
   assert (HI : DInv sp true s).
-  { unfold s. rewrite run_steps. apply DInv_steps6; [exact He|]. left. repeat split; reflexivity. }
+  { unfold s. rewrite run_steps. apply DInv_steps7; [exact He|]. left. repeat split; reflexivity. }
   destruct HI as [[Hc' _]|HD]; [congruence|].
-  destruct (no_stuck_joinfree sp (simple_nojoin sp Hs) u evs (plain6_live evs He) Hc Hp) as [Hdone Hfin]. fold s in Hdone, Hfin.
+  destruct (no_stuck_joinfree sp (simple_nojoin sp Hs) u evs (run7_live evs _ He) Hc Hp) as [Hdone Hfin]. fold s in Hdone, Hfin.
   assert (Hcomp : is_completed (wf_state s) = true).
   { destruct Hfin as [H|H]; [exact H|]. contradiction. }
   rewrite (D_verdict _ _ _ _ HD Hcomp).
   assert (Hnames : forall r, In r (tasks s) -> t_name r < length sp).
   { intros r Hr. apply In_nth_error in Hr. destruct Hr as [k Hk]. apply (D_states _ _ _ _ HD k r Hk). }
   assert (Hst : forall p, p < length sp -> Permutation (states_named s p) (den_states p)).
-  { intros p Hpl. unfold den_states. apply (den_correct6 u evs He Hc Hp Hnpz p Hpl). }
+  { intros p Hpl. unfold den_states. apply (den_correct7 u evs He Hc Hp Hnpz p Hpl). }
   unfold verdict_of, den_verdict.
   assert (E1 : existsb (fun r => state_eqb (t_state r) CANCELLED) (tasks s) =
                existsb (fun p => existsb (fun x => state_eqb x CANCELLED) (den_states p)) (seq 0 (length sp))).
@@ -1809,6 +1899,12 @@ Proof.
       apply existsb_exists in Hx2. destruct Hx2 as [x [Hxi Hx2]]. apply existsb_exists. exists x. split; [exact Hxi|]. rewrite Hx2, Hx1. reflexivity. }
   rewrite E1, E2. destruct (existsb _ (seq 0 (length sp))); [reflexivity|]. destruct (existsb _ (seq 0 (length sp))); reflexivity.
 Qed.
+Theorem den_final_state6 u evs :
+  forallb plain6 evs = true ->
+  let s := run sp u evs in
+  wf_created s = true -> pend s = [] -> wf_state s <> PAUSED -> wf_state s = den_verdict.
+Proof. intros He. apply den_final_state7. apply plain6_run7. exact He. Qed.
+
 Theorem den_final_state u evs :
   forallb plain4 evs = true ->
   let s := run sp u evs in
@@ -1852,6 +1948,26 @@ Proof.
     eapply perm_trans; [exact B1|]. apply Permutation_sym. exact B2.
 Qed.
 
+(* the same with repeated deliveries: start requests delivered again at any time and results delivered
+   again to action executions that already accepted one, mixed with operator pauses and resumes, change
+   neither the tasks that run, nor their final states, nor the final workflow state *)
+Theorem dup_same_result sp u1 u2 evs1 evs2 :
+  simple_b sp = true -> run7 sp (init_with u1) evs1 = true -> forallb plain4 evs2 = true ->
+  let s1 := run sp u1 evs1 in let s2 := run sp u2 evs2 in
+  wf_created s1 = true -> pend s1 = [] -> wf_state s1 <> PAUSED -> wf_created s2 = true -> pend s2 = [] ->
+  wf_state s1 = wf_state s2 /\
+  forall n, n < length sp ->
+    rows_named s1 n = rows_named s2 n /\ Permutation (states_named s1 n) (states_named s2 n).
+Proof.
+  intros Hs H1 H2 s1 s2 C1 P1 N1 C2 P2. split.
+  - unfold s1, s2. rewrite (den_final_state7 sp Hs u1 evs1 H1 C1 P1 N1), (den_final_state sp Hs u2 evs2 H2 C2 P2). reflexivity.
+  - intros n Hn.
+    destruct (den_correct7 sp Hs u1 evs1 H1 C1 P1 N1 n Hn) as [A1 B1].
+    destruct (den_correct sp Hs u2 evs2 H2 C2 P2 n Hn) as [A2 B2].
+    fold s1 in A1, B1. fold s2 in A2, B2. split; [congruence|].
+    eapply perm_trans; [exact B1|]. apply Permutation_sym. exact B2.
+Qed.
+
 (* ------------------------------------------------------------ non-vacuity *)
 (* 0 -> (1 | 2 twice: on-success and on-complete), 1 fails -> on-error 3, 2 (second run fails) -> 3 on-success *)
 Definition den_demo : spec :=
@@ -1887,4 +2003,22 @@ Example pause_resume_demo_ok :
   wf_created s1 = true /\ pend s1 = [] /\ wf_state s1 <> PAUSED /\ wf_created s2 = true /\ pend s2 = [] /\
   wf_state (steps den_demo sB e1) = PAUSED /\ 0 < length e1 /\ wf_state (steps den_demo sD e3) = PAUSED /\ 0 < length e3 /\
   wf_state s1 = CANCELLED /\ map (rows_named s1) [0; 1; 2; 3] = [1; 1; 2; 2] /\ evs1 <> evs2.
+Proof. vm_compute. repeat split; try discriminate; try (apply Nat.leb_le; reflexivity). Qed.
+
+(* every start request delivered three times (once before the original), every result twice, a pause in between *)
+Definition with_dups (evs : list ev) : list ev :=
+  flat_map (fun e => match e with
+                     | EFire (IStartTask t f r x) => [EDup (IStartTask t f r x); e; EDup (IStartTask t f r x)]
+                     | EFire (IResult a o) => [e; EDup (IResult a o)]
+                     | _ => [e]
+                     end) evs.
+
+Example dup_demo_ok :
+  let sA := fst (step den_demo init EStart) in
+  let evs2 := EStart :: drain_evs den_demo sA 200 in
+  let evs1 := with_dups (firstn 12 evs2) ++ [EPause; EResume] ++ with_dups (skipn 12 evs2) in
+  let s1 := run den_demo [] evs1 in let s2 := run den_demo [] evs2 in
+  run7 den_demo init evs1 = true /\ forallb plain6 evs1 = false /\ forallb plain4 evs2 = true /\
+  wf_created s1 = true /\ pend s1 = [] /\ wf_state s1 <> PAUSED /\ wf_created s2 = true /\ pend s2 = [] /\
+  wf_state s1 = CANCELLED /\ map (rows_named s1) [0; 1; 2; 3] = [1; 1; 2; 2] /\ length evs2 + 15 < length evs1.
 Proof. vm_compute. repeat split; try discriminate; try (apply Nat.leb_le; reflexivity). Qed.
